@@ -26,7 +26,6 @@ RULE = ("every entry point (%d ops of goexec/total.go, each calling the decoder 
         % (len(ENTRIES), 15))
 EXHAUSTIVE = False
 MAX_REPORTS = 40
-MODEL_OPTIONAL = True   # the model side of the tot.* ops is optional (see oracle)
 ASSUMPTIONS = ["a call is a hang when it runs > 3 s or the heap exceeds 768 MiB (goexec watchdog), confirmed by one re-run in a fresh process",
                "memory/time bounds are observed, not proved (DESIGN section 10); read-only = input snapshot compared after the call",
                "cli/parsefile.go (a main package) is not driven"]
@@ -114,17 +113,25 @@ def gen(rng, tier):
 
 
 def oracle(c, real, model):
+    """verdict from the REAL observation alone; when the real code is fine the model's outcome class is compared
+    (the model side of the same op, Exec/TotExec.v): a difference breaks the tie between the totality theorems
+    (Properties/C05*.v) and the code and is reported as a correspondence break ("fidelity:" prefix, see bin/check)."""
     if real.startswith("[0 1]"):
+        if model != "[0 1]":
+            return "fidelity: the real code returns, the model of %s answers %s" % (c.line.split(" ")[0], MODEL_CLASS.get(model, model))
         return ""
     if real.startswith("[0 0]"):
         return "a read-only operation modified a caller-supplied buffer"
     if real.startswith("[2"):
-        return "panic at " + site(real)
+        return "panic at " + site(real) + ("" if model == "[0 1]" else " (model: %s)" % MODEL_CLASS.get(model, model))
     if real == "[3]":
         return "hang or heap blow-up (watchdog)"
     if real == "[4]":
         return "process died"
     return "unexpected reply " + real
+
+
+MODEL_CLASS = {"[0 1]": "returns", "[2 x]": "Panic", "[3]": "Diverge"}
 
 
 def site(real):
